@@ -54,11 +54,19 @@ Theorem C04_state_nothing_after_reset :
 Proof. exact nothing_after_reset. Qed.
 
 (* Closed is absorbing together with its cause, except for the relabelling calls
-   recv_reset(.., queued = true), set_reset, and set_scheduled_reset without debug assertions. *)
+   recv_reset(.., queued = true), set_reset, and set_scheduled_reset without debug assertions.
+   A reset that is only scheduled (never written) stays until one of those, any recv_reset or a connection error. *)
 Theorem C04_state_closed_cause_forever :
   forall dbg c os,
+  unsent c = false ->
   forallb (fun o => negb (relabels dbg o)) os = true -> run dbg (Closed c) os = Closed c.
 Proof. exact closed_cause_forever. Qed.
+
+Theorem C04_state_scheduled_cause_forever :
+  forall dbg r os,
+  forallb (fun o => negb (relabels_unsent dbg o)) os = true ->
+  run dbg (Closed (ScheduledLibraryReset r)) os = Closed (ScheduledLibraryReset r).
+Proof. exact scheduled_cause_forever. Qed.
 
 (* The only way to become "send streaming" is a successful send_open(false): nothing is sendable on
    an idle stream, and no other method opens the send half. *)
@@ -172,14 +180,14 @@ Theorem C09_state_recv_close_verdict :
    recv_close s = (s, RProtoErr (EGoAway [] PROTOCOL_ERROR Library))).
 Proof. exact recv_close_verdict. Qed.
 
-(* RST_STREAM, with any code, is never an error for the state machine; on a closed stream with
+(* RST_STREAM, with any code, is never an error for the state machine; on a closed stream (whose reset, if any, was written) with
    nothing queued it changes nothing; the only state where the RFC wants a connection error is
    idle (refused by the caller, `ensure_not_idle`). *)
 Theorem C09_state_recv_reset_tolerated :
   forall sid r q s,
   snd (recv_reset sid r q s) = RUnit /\
   is_closed (fst (recv_reset sid r q s)) = true /\
-  (is_closed s = true -> q = false -> fst (recv_reset sid r q s) = s) /\
+  (is_closed s = true -> q = false -> get_scheduled_reset s = None -> fst (recv_reset sid r q s) = s) /\
   (receiver_must (abs s) (how_of s) RST_STREAM = conn_error -> s = Idle).
 Proof. exact recv_reset_tolerated. Qed.
 
@@ -315,9 +323,20 @@ Proof. exact error_persists. Qed.
 
 Theorem C17_state_first_error_wins :
   forall e c,
-  fst (handle_error e (Closed c)) = Closed c /\ fst (recv_eof (Closed c)) = Closed c /\
-  (forall sid r, fst (recv_reset sid r false (Closed c)) = Closed c).
+  (unsent c = false -> fst (handle_error e (Closed c)) = Closed c) /\ fst (recv_eof (Closed c)) = Closed c /\
+  (unsent c = false -> forall sid r, fst (recv_reset sid r false (Closed c)) = Closed c).
 Proof. exact first_error_wins. Qed.
+
+Theorem C17_state_scheduled_reset_gives_way_conn :
+  forall e r, fst (handle_error e (Closed (ScheduledLibraryReset r))) = Closed (CError e).
+Proof. exact scheduled_reset_gives_way_conn. Qed.
+
+(* a reset the library only scheduled was never seen by the peer: the peer's RST_STREAM is the cause *)
+Theorem C17_state_scheduled_reset_gives_way :
+  forall sid reason r,
+  fst (recv_reset sid reason false (Closed (ScheduledLibraryReset r)))
+    = Closed (CError (remote_reset sid reason)).
+Proof. exact scheduled_reset_gives_way. Qed.
 
 Theorem C17_state_nonvacuous :
   (is_closed (Open Streaming Streaming) = false /\
